@@ -21,7 +21,7 @@ func init() {
 		},
 	}
 	suites["cluster"] = suite{
-		rule: "episodes on a real clusterClient over scripted nodes: topology (1-5 shards, replicas, holes, CLUSTER SLOTS v7 / CLUSTER SHARDS v8, plain / SendToReplicas modes, MaxMovedRedirections 0-3, retry budget 0-2), table/rtable/conns dumps, _pickMulti/_pickMultiCache differentials, Do/DoCache/DoMulti/DoMultiCache with injected MOVED/ASK/TRYAGAIN/LOADING/CLUSTERDOWN/transport/ERR/nil replies on chosen (node, command) pairs (chains up to depth 4, unknown and self targets), MULTI…EXEC blocks, topology changes + refresh; '!trace' lines evaluate the specification predicates on the real per-node logs; non-trivial = op whose script had at least one consumed injection or a batch split over 2+ nodes",
+		rule: "episodes on a real clusterClient over scripted nodes: topology (1-5 shards, replicas, holes, CLUSTER SLOTS v7 / CLUSTER SHARDS v8, plain / SendToReplicas modes, MaxMovedRedirections 0-3, retry budget 0-2), table/rtable/conns dumps, _pickMulti/_pickMultiCache differentials, Do/DoCache/DoMulti/DoMultiCache with injected MOVED/ASK/TRYAGAIN/LOADING/CLUSTERDOWN/transport/ERR/nil replies on chosen (node, command) pairs (chains up to depth 4, unknown and self targets), MULTI…EXEC blocks, topology changes + refresh, hole-fill episodes (the cached table lacks a shard the cluster serves: the batch's first pick fails, refreshes and picks again, then a member / block member / EXEC is redirected); '!trace' lines evaluate the specification predicates on the real per-node logs; non-trivial = op whose script had at least one consumed injection or a batch split over 2+ nodes",
 		run:  runCluster,
 		replay: func(c *Ctx, lines []string) {
 			runEpisodeLines(c, lines)
@@ -854,9 +854,101 @@ func genEpisode(c *Ctx, idx int, flavor string) []string {
 	return lines
 }
 
+// genHoleFill: the cached slot table lacks a shard that the cluster meanwhile serves. The first batch on a
+// slot of that shard makes pickMulti / pickMultiCache / pick fail, refresh and pick again; a member of the
+// batch (of its MULTI…EXEC block) is then redirected. No redirect-class reply precedes the refreshing op, so
+// no background refresh is pending when it runs.
+func genHoleFill(c *Ctx) []string {
+	ver := 7 + c.Rng.IntN(2)
+	var t genTopo
+	for {
+		t = genClusterTopo(c, false)
+		if len(t.ds) >= 2 {
+			break
+		}
+	}
+	gone := c.Rng.IntN(len(t.ds))
+	partial := genTopo{}
+	for i, d := range t.ds {
+		if i != gone {
+			partial.ds = append(partial.ds, d)
+		}
+	}
+	// the seed must be a node of the partial topology or a foreign one
+	init := nodeAddrOf(partial.ds[0].nodes[0])
+	maxRedir := []int{0, 0, 2, 3}[c.Rng.IntN(4)]
+	lines := []string{
+		fmt.Sprintf("reset ver=%d tls=0 mode=plain maxredir=%d retry=1 budget=%d init=%s", ver, maxRedir, c.Rng.IntN(3), hx(init)),
+		"serve " + partial.msg(ver, true).String(),
+		"new", "table",
+		"serve " + t.msg(ver, true).String(), // not refreshed: the client still holds the partial table
+	}
+	r := t.ds[gone].ranges[0]
+	slot := int(r[0] + int64(c.Rng.IntN(int(r[1]-r[0]+1))))
+	owner := nodeAddrOf(t.ds[gone].nodes[0])
+	other := nodeAddrOf(partial.ds[c.Rng.IntN(len(partial.ds))].nodes[0])
+	kind := []string{"mv", "ask"}[c.Rng.IntN(2)]
+	switch c.Rng.IntN(4) {
+	case 0: // single command
+		lines = append(lines, fmt.Sprintf("do 0/%d/- h=- ; %s", slot, inj{addr: owner, id: 0, kind: kind, arg: other}))
+	case 1: // plain batch, one command on the missing shard
+		s2 := partial.interestingSlot(c)
+		lines = append(lines, fmt.Sprintf("multi 0/%d/- 1/%d/t 2/%d/r ; %s", s2, slot, slot, inj{addr: owner, id: 1, kind: kind, arg: other}))
+	default: // transaction block on the missing shard, a member (or the EXEC) redirected
+		shape := []string{}
+		if c.Rng.IntN(2) == 0 {
+			shape = append(shape, "p")
+		}
+		shape = append(shape, "M")
+		for i, k := 0, 1+c.Rng.IntN(3); i < k; i++ {
+			shape = append(shape, "m")
+		}
+		shape = append(shape, "E")
+		if c.Rng.IntN(2) == 0 {
+			shape = append(shape, "p")
+		}
+		var specs []string
+		var members []int
+		for i, sh := range shape {
+			switch sh {
+			case "M":
+				specs = append(specs, cmdSpec{i, 16384, "M"}.String())
+			case "E":
+				specs = append(specs, cmdSpec{i, 16384, "E"}.String())
+				if c.Rng.IntN(4) == 0 {
+					members = append(members, i)
+				}
+			case "m":
+				specs = append(specs, cmdSpec{i, slot, []string{"-", "t", "r"}[c.Rng.IntN(3)]}.String())
+				members = append(members, i)
+			default:
+				specs = append(specs, cmdSpec{i, slot, "-"}.String())
+			}
+		}
+		victim := members[c.Rng.IntN(len(members))]
+		is := []inj{{addr: owner, id: victim, kind: kind, arg: other}}
+		if shape[victim] == "m" && c.Rng.IntN(2) == 0 { // what a server does after a queue-time redirect
+			for i, sh := range shape {
+				if sh == "E" {
+					is = append(is, inj{addr: owner, id: i, kind: "raw", arg: "EXECABORT Transaction discarded because of previous errors."})
+				}
+			}
+		}
+		lines = append(lines, fmt.Sprintf("multi %s ; %s", strings.Join(specs, " "), joinInj(is)))
+	}
+	lines = append(lines, "table", "conns")
+	for i := range lines {
+		lines[i] = strings.TrimSpace(lines[i])
+	}
+	return lines
+}
+
 func runCluster(c *Ctx) {
 	for i := 0; i < c.N; i++ {
 		runEpisodeLines(c, genEpisode(c, i, "batch"))
+		if i%6 == 0 {
+			runEpisodeLines(c, genHoleFill(c))
+		}
 	}
 }
 
@@ -886,6 +978,9 @@ func genSF(c *Ctx) []string {
 func runRoute(c *Ctx) {
 	for i := 0; i < c.N; i++ {
 		runEpisodeLines(c, genEpisode(c, i, "route"))
+		if i%12 == 0 {
+			runEpisodeLines(c, genHoleFill(c))
+		}
 		if i%40 == 0 {
 			runEpisodeLines(c, genSF(c))
 		}
